@@ -403,6 +403,7 @@ theorem invF_move (s : St) (m : Move) (hu : InvU s) (h : InvF s) : InvF (move s 
     split
     · intro i c reg hc; simp [clearAll] at hc
     · exact h
+  case failCreate => exact h
 
 theorem invF_reach (ms : List Move) : InvF (reach ms) := by
   have : ∀ (s : St), Inv s → InvF s → InvF (runMoves s ms) := by
